@@ -381,14 +381,14 @@ func init() {
 		Thorough: []hrun{
 			{Harness: "vhC12Merge", Covers: []string{"C12/Merge/jitter-minus-one"}},
 			{Harness: "vhC12Logic", Params: P("K", 4), Covers: []string{"C12/Logic/limit-hit", "C12/Logic/elapsed-refusal", "C12/Logic/retry-granted"}, NoNative: true},
-			{Harness: "vhC12Logic", Params: P("K", 1, "JITTER", 1), Solver: "z3-new", Covers: []string{"C12/Logic/retry-granted"}, NoNative: true},
+			{Harness: "vhC12Logic", Params: P("K", 5, "SIMPLE", 1, "RANDEXTREMES", 1), Covers: []string{"C12/Logic/retry-granted"}, NoNative: true},
 			{Harness: "vhC12Connect", Params: P("A", 4, "CANCEL", 0, "BODYKINDS", 1, "TPLMASK", 9), Covers: []string{"C11/Connect/retries-exhausted"}},
 			{Harness: "vhC12Connect", Params: P("A", 2, "CANCEL", 0, "BODYKINDS", 1, "TPLMASK", 129, "RDIGITS", 2), Covers: []string{"C12/Connect/server-retry-used"}},
 		},
 		Labels: []string{"C12/", "panic:"},
 		Bounds: map[string]string{
 			"quick":    "mergeDefaults on a fully symbolic Backoff (64-bit integers, IEEE doubles, NaN excluded); the backoff controller through every sequence of 3 events {retry requested, successful connection with server retry in {0,-5ns,250ms,4s}} with InitialInterval in {1ns,1us,3s}, Multiplier in {1,1.5,2}, MaxInterval in {0,2.5us,7s}, MaxRetries in {-1,0,1,3}, Jitter -1, symbolic MaxElapsedTime in [-1,2^40] and a symbolic non-decreasing clock; the Connect loop with scripts of <=2 attempts whose streams carry retry:<2 symbolic bytes>, and <=3 attempts for the retry-count limit",
-			"thorough": "quick plus: sequences of 4 events without jitter; Jitter in {0.5,0.25,0.9} with an arbitrary rng value in [0,1) for one event from every configuration (floating point, z3 5.1); Connect scripts of 4 attempts; a retry field in a cut block next to the data-only template",
+			"thorough": "quick plus: sequences of 4 events without jitter; jitter histories of 5 events with the draws at their extremes and midpoint (a fully symbolic draw - IEEE floating point in z3 - did not complete reliably and is not registered); Connect scripts of 4 attempts; a retry field in a cut block next to the data-only template",
 		},
 		Outside: []string{"real-valued Jitter/Multiplier other than the listed ones in the schedule clauses (mergeDefaults is decided for all values)", "waits after the first one of a series started by a server retry value inside the Connect harness (floating-point growth: decided in the controller harness for the listed configurations)", "float to Duration overflow", "wall-clock timing: timers fire at once, time.Now is an arbitrary non-decreasing value"},
 		Oracle:  "recurrence b_1 = InitialInterval or the server retry value, b_(k+1) = min(b_k*Multiplier, MaxInterval); wait within +-Jitter of b_k (exactly b_k for -1), rounded outward to whole nanoseconds; at most MaxRetries grants in a row; refusal only when elapsed+wait would exceed MaxElapsedTime; OnRetry once per retry with the duration the timer is armed with",
